@@ -338,3 +338,74 @@ func VHarness_C17_RateLimitRecovers() {
 	vReach("feedback")
 	vReach("done")
 }
+
+// C17 (a connected quorum elects a leader also when it needs a witness or has
+// to get past the leader lease): with CheckQuorum a replica drops vote
+// requests of a higher term while it has heard from a leader within the last
+// electionTimeout ticks.  That lease must run out: after 2*electionTimeout
+// ticks without any message (the leader is gone), a RequestVote / RequestPreVote
+// of a higher term from a member with an up-to-date log is not dropped by any
+// kind of replica - voting, non-voting or witness, whatever its randomized
+// timeout - and the witness / voter grants it.
+// vcheck: props=C18 reach=witness,nonvoting,voter,granted,done workers=16
+func VHarness_C17_LeaseRunsOut() {
+	o := vRaftOpts{pairs: [][2]uint64{{vS3w, 3}, {vS3, 1}, {vS4, 4}}, log: vLogOpts{noAppliedTo: true, allSaved: true},
+		roles: []State{follower}, flags: true}
+	r, c := vRaft(o)
+	vAssume(r.checkQuorum)
+	vAssume(r.applied == r.log.committed)
+	vAssume(r.leaderID != NoLeader && r.leaderID != c.self)
+	peer := Peer{raft: r}
+	for k := 0; k < int(2*r.electionTimeout); k++ {
+		r.msgs = r.msgs[:0]
+		vAssert(peer.Tick() == nil, "noerr")
+	}
+	switch r.state {
+	case witness:
+		vReach("witness")
+	case nonVoting:
+		vReach("nonvoting")
+	default:
+		vReach("voter")
+	}
+	// a candidate of a higher term whose log is at least as good as ours
+	var from uint64
+	for _, v := range c.shape.voters {
+		if v != c.self && from == 0 {
+			from = v
+		}
+	}
+	pre := vBool("prevote")
+	vAssume(vImplies(pre, r.preVote))
+	m := pb.Message{Type: pb.RequestVote, To: c.self, From: from, Term: r.term + 1, LogIndex: r.log.lastIndex() + 1, LogTerm: r.term + 1}
+	if pre {
+		m.Type = pb.RequestPreVote
+	}
+	termBefore, stateBefore := r.term, r.state
+	r.msgs = r.msgs[:0]
+	vAssert(peer.Handle(m) == nil, "noerr")
+	answered := false
+	granted := false
+	for i := range r.msgs {
+		if r.msgs[i].To == from && (r.msgs[i].Type == pb.RequestVoteResp || r.msgs[i].Type == pb.RequestPreVoteResp) {
+			answered = true
+			if !r.msgs[i].Reject {
+				granted = true
+			}
+		}
+	}
+	if stateBefore == nonVoting {
+		// a non-voting member has no vote to give, but it follows the new term
+		vAssert(pre || r.term == termBefore+1, "P6-expired-lease-nonvoting-follows-the-higher-term")
+	} else {
+		vAssert(answered, "P6-expired-lease-vote-request-of-a-higher-term-is-answered")
+		if !pre {
+			vAssert(r.term == termBefore+1, "P6-expired-lease-vote-request-moves-the-term")
+		}
+		if stateBefore == witness || stateBefore == follower {
+			vAssert(granted, "P6-expired-lease-up-to-date-candidate-gets-the-vote")
+			vReach("granted")
+		}
+	}
+	vReach("done")
+}
